@@ -484,6 +484,7 @@ class Facts:
             self.fns[raw["path"]] = Fn(raw, self)
         self.adts = {a["path"]: a for a in data["adts"]}
         self.impls = data.get("impls", [])
+        self.traits = data.get("traits", [])
         self.consts = {c["path"]: c for c in data.get("consts", [])}
 
     def fn(self, path):
